@@ -143,4 +143,52 @@ def check_config(ctx, spec, N):
                 ref = O.expm_batch(oracle_ad(spec, X[okE]))
                 err = np.abs(AdE - ref).max(axis=(1, 2))
                 ctx.check_array("Ad_exp_is_expm_ad", name, err, 1e-9 * sX[okE] * np.maximum(1, spec.alg_angle(X[okE])), {"x": X[okE]})
+    numeric_path(ctx, spec, G, rng)
     ctx.sample({"config": name, "X": A[min(len(A) - 1, 40)], "x": X[min(len(X) - 1, 40)]})
+
+
+def numeric_path(ctx, spec, G, rng, n=120):
+    """the same operations called directly on numeric (DM) elements: CasADi simplifies constant expressions on a
+    different code path than symbolic ones (sparsify with a tolerance, constant folding, ...), and that is how
+    scripts and notebooks call the library.  Includes poses a hair away from the identity."""
+    name = spec.name
+    alg = G.algebra
+    A = np.concatenate([group_corpus(spec)[:10], spec.rand(rng, n // 2, thi=10.0),
+                        spec.rand(rng, n // 4, hi=2e-3, tlo=1e-9, thi=1e-5), spec.rand(rng, n // 4, hi=3.0, tlo=1e-9, thi=3e-7)])
+    A = A[np.abs(A).max(axis=1) < 1e3]
+    X = np.concatenate([algebra_corpus(spec)[:10], spec.alg_rand(rng, n // 2, thi=10.0), spec.alg_rand(rng, n // 4, hi=2e-3, tlo=1e-9, thi=1e-5)])
+    X = X[np.abs(X).max(axis=1) < 1e3]
+    MA = spec.mat(A)
+    okA = euler_ok(spec, MA)
+    refA, refX = oracle_Ad(spec, MA), oracle_ad(spec, X)
+    eA, eX = [], []
+    offered = True
+    for k in range(len(A)):
+        if not okA[k]:
+            eA.append(0.0)
+            continue
+        try:
+            v = ca.DM(G.elem(ca.DM(A[k])).Ad()).full()
+            eA.append(float(np.abs(v - refA[k]).max()) if v.shape == refA[k].shape and np.isfinite(v).all() else np.inf)
+        except NotImplementedError:
+            offered = False
+            break
+        except Exception as e:
+            ctx.violation("raises_numeric_Ad", name, {"exception": type(e).__name__, "message": str(e)[:200], "X": A[k]})
+            offered = False
+            break
+    if offered and eA:
+        ctx.check_array("numeric_Ad_is_conjugation", name, eA, 1e-9 * spec.scale(A), {"X": A})
+    for k in range(len(X)):
+        try:
+            v = ca.DM(alg.elem(ca.DM(X[k])).ad()).full()
+            eX.append(float(np.abs(v - refX[k]).max()) if v.shape == refX[k].shape and np.isfinite(v).all() else np.inf)
+        except NotImplementedError:
+            eX = []
+            break
+        except Exception as e:
+            ctx.violation("raises_numeric_ad", name, {"exception": type(e).__name__, "message": str(e)[:200], "x": X[k]})
+            eX = []
+            break
+    if eX:
+        ctx.check_array("numeric_ad_is_commutator", name, eX, 1e-9 * spec.alg_scale(X), {"x": X})
